@@ -289,6 +289,7 @@ def run(ctx):
 
 
 def replay(ctx, rp):
+    common.import_eups()
     inp = rp["input"]
     g, case = inp["graph"], inp["case"]
     io_ = in_child_job((g, case))
